@@ -2535,7 +2535,15 @@ pub fn go_file(
         }
     }
 
-    let file = anf::anf_renamer::rename(file);
+    let type_names = goenv
+        .structs()
+        .map(|(name, _)| name.0.clone())
+        .chain(goenv.enums().flat_map(|(name, def)| {
+            std::iter::once(name.0.clone())
+                .chain(def.variants.iter().map(|(variant, _)| variant.0.clone()))
+        }))
+        .collect::<Vec<_>>();
+    let file = anf::anf_renamer::rename(file, type_names.into_iter());
     let dyn_req = collect_dyn_requirements(&file);
 
     let mut toplevels = gen_type_definition(&goenv, &closures_used_as_fn_values(&file));
